@@ -365,13 +365,13 @@ func GenInput(t *rapid.T, o GenOpts) Input {
 	}
 
 	if o.Bulk && rapid.IntRange(0, 2).Draw(t, "bulk") == 0 {
-		n := rapid.IntRange(50, 200).Draw(t, "bulk.n")
+		n := rapid.IntRange(40, 160).Draw(t, "bulk.n")
 		k := rapid.SampledFrom([]int{0, 3, 3, 5, 6, 7, 4}).Draw(t, "bulk.k")
 		v := rapid.IntRange(0, 11).Draw(t, "bulk.variant")
 		if rapid.Bool().Draw(t, "bulk.spread") {
 			// the same volume spread over 10-50 files whose recording rules repeat across
 			// files (rule/duplicate runs per entry and asks every server about every path)
-			nf := rapid.IntRange(10, 50).Draw(t, "bulk.nfiles")
+			nf := rapid.IntRange(10, 40).Draw(t, "bulk.nfiles")
 			for i := 0; i < nf; i++ {
 				name := fmt.Sprintf("bulk/file_%03d.yml", i)
 				if i%10 == 9 {
